@@ -187,6 +187,7 @@ fn run_suite<S: ShortGroupSignatureScheme>(v: &Value, ps: bool) -> Value {
         claims: Vec<ClaimData>,
         msgs: Vec<Scalar>,
         sig: SigView,
+        handle: credx::knox::accumulator::vb20::MembershipWitness,
     }
     let mut creds: Vec<Cred> = vec![];
     for c in creds_spec {
@@ -208,7 +209,7 @@ fn run_suite<S: ShortGroupSignatureScheme>(v: &Value, ps: bool) -> Value {
         let bundle = iss.sign_credential(&claims).expect("sign");
         let msgs: Vec<Scalar> = claims.iter().map(|c| c.to_scalar()).collect();
         let sig = sig_view::<S>(&bundle.credential.signature, kv, &msgs, &mut cx.rng);
-        creds.push(Cred { issuer: ii, claims, msgs, sig });
+        creds.push(Cred { issuer: ii, claims, msgs, sig, handle: bundle.credential.revocation_handle });
     }
     // ---- statements
     let stmts_spec = v["stmts"].as_array().unwrap();
@@ -240,7 +241,7 @@ fn run_suite<S: ShortGroupSignatureScheme>(v: &Value, ps: bool) -> Value {
                     shared.insert(key, n);
                 }
             }
-            "comm" | "venc" => {
+            "comm" | "venc" | "rev" => {
                 let key = (st["ref"].as_str().unwrap().to_string(), st["claim"].as_u64().unwrap() as usize);
                 if !shared.contains_key(&key) {
                     let n = rnd(&mut cx.rng);
@@ -312,6 +313,14 @@ fn run_suite<S: ShortGroupSignatureScheme>(v: &Value, ps: bool) -> Value {
                 let dec = st["dec"].as_bool().unwrap_or(false);
                 statements.push(VerifiableEncryptionStatement { message_generator: gm.pt, encryption_key: ipub.verifiable_encryption_key, id: id.clone(), reference_id: r.clone(), claim, allow_message_decryption: dec }.into());
                 model_schema.push(json!({"k":"venc","id":idn(&ids,&id),"ref":idn(&ids,&r),"claim":claim,"gm":hexs(&gm.dl),"ek":hexs(&ek.dl),"dec":dec}));
+            }
+            "rev" => {
+                let r = st["ref"].as_str().unwrap().to_string();
+                let claim = st["claim"].as_u64().unwrap() as usize;
+                let ci = st_cred(stmts_spec, &r);
+                let (ipub, _, _) = issuers[creds[ci].issuer].as_ref().unwrap();
+                statements.push(RevocationStatement { id: id.clone(), reference_id: r.clone(), accumulator: ipub.revocation_registry, verification_key: ipub.revocation_verifying_key, claim }.into());
+                model_schema.push(json!({"k":"rev","id":idn(&ids,&id),"ref":idn(&ids,&r),"claim":claim}));
             }
             _ => panic!("unknown statement kind"),
         }
@@ -656,6 +665,43 @@ fn run_suite<S: ShortGroupSignatureScheme>(v: &Value, ps: bool) -> Value {
         vencs.insert(id, VencMat { c1: Sh1::gen(k), c2: gm.mul(m).add(&ek.mul(k)), k, r: rnd(&mut cx.rng) });
     }
 
+    // revocation: the accumulator sub-protocol is run by the library's own committing step (public API) on an element,
+    // a witness and a blinder of the holder's choosing; gen_proof(0) is the dummy proof (responses = nonces)
+    use credx::knox::accumulator::vb20::{Element, MembershipProofCommitting, ProofParams};
+    use credx::knox::short_group_sig_core::{HiddenMessage, ProofMessage};
+    struct RevMat {
+        committing: MembershipProofCommitting,
+        params: ProofParams,
+    }
+    let mut revs: IndexMap<String, RevMat> = IndexMap::new();
+    for st in stmts_spec {
+        if st["k"].as_str().unwrap() != "rev" {
+            continue;
+        }
+        let id = st["id"].as_str().unwrap().to_string();
+        let r = st["ref"].as_str().unwrap().to_string();
+        let claim = st["claim"].as_u64().unwrap() as usize;
+        let ci = sig_of[&r];
+        let cred = &creds[ci];
+        let (ipub, _, _) = issuers[cred.issuer].as_ref().unwrap();
+        let mut y = cred.msgs[claim];
+        let mut wit = cred.handle;
+        let mut ny = *shared.get(&(r.clone(), claim)).unwrap();
+        if id == target && (devk == "rev_other_element_shared" || devk == "rev_other_element_independent") {
+            // the sub-protocol is run on ANOTHER credential's identifier and (valid) handle of the same registry
+            if let Some(o) = (0..creds.len()).find(|o| *o != ci && creds[*o].issuer == cred.issuer) {
+                y = creds[o].msgs[0];
+                wit = creds[o].handle;
+            }
+            if devk == "rev_other_element_independent" {
+                ny = rnd(&mut cx.rng);
+            }
+        }
+        let params = ProofParams::new(ipub.revocation_verifying_key, Some(b"verifier nonce"));
+        let committing = MembershipProofCommitting::new(ProofMessage::Hidden(HiddenMessage::ExternalBlinding(y, ny)), wit, params, ipub.revocation_verifying_key);
+        revs.insert(id, RevMat { committing, params });
+    }
+
     // ---- assemble a presentation for a given challenge
     let build = |c: Scalar, mats: &IndexMap<String, SigMat>, fin: bool| -> (Presentation<S>, Value) {
         let mut proofs: IndexMap<String, PresentationProofs<S>> = IndexMap::new();
@@ -767,6 +813,31 @@ fn run_suite<S: ShortGroupSignatureScheme>(v: &Value, ps: bool) -> Value {
                     let p = VerifiableEncryptionProof { id: id.clone(), c1: vm.c1.pt, c2: vm.c2.pt, blinder_proof: bp, decryptable_scalar_proof: None };
                     proofs.insert(id.clone(), p.into());
                     mproofs.push(json!([idn(&ids,&id), {"k":"venc","id":idn(&ids,&id),"c1":hexs(&vm.c1.dl),"c2":hexs(&vm.c2.dl),"bp":hexs(&bp),"has":false}]));
+                }
+                "rev" => {
+                    if id == target && devk == "omit_pred" {
+                        continue;
+                    }
+                    let rm = &revs[&id];
+                    let mut proof = rm.committing.gen_proof(Element(c));
+                    if fin && id == target && devk == "rev_tamper_sy" {
+                        let mut pv = tj(&proof);
+                        let sy: Scalar = fj(&pv["s_y"]);
+                        pv["s_y"] = tj(&(sy + Scalar::ONE));
+                        proof = fj(&pv);
+                    }
+                    // the verifier's recomputed commitments, as one opaque item for the model's transcript comparison
+                    let r = st["ref"].as_str().unwrap().to_string();
+                    let (ipub, _, _) = issuers[creds[sig_of[&r]].issuer].as_ref().unwrap();
+                    let fin_v = proof.finalize(ipub.revocation_registry, rm.params, ipub.revocation_verifying_key, Element(c));
+                    let mut t = merlin::Transcript::new(b"opaque item");
+                    fin_v.get_bytes_for_challenge(&mut t);
+                    let mut okm = [0u8; 64];
+                    t.challenge_bytes(b"digest", &mut okm);
+                    let digest = Scalar::from_bytes_wide(&okm);
+                    let sy: Scalar = fj(&tj(&proof)["s_y"]);
+                    proofs.insert(id.clone(), RevocationProof { id: id.clone(), proof }.into());
+                    mproofs.push(json!([idn(&ids,&id), {"k":"rev","id":idn(&ids,&id),"sy":hexs(&sy),"fin":hexs(&digest)}]));
                 }
                 _ => {}
             }
